@@ -173,11 +173,18 @@ class _Pairs(Sym):
         return bool(wrap(z3.Or(COUPLED(a.e, b.e), COUPLED(b.e, a.e))))
 
 
-class _GateTag(Sym):
-    """operation.gate: only its variadic-ness is observed (isinstance against _VARIADIC_GATE_TYPES)"""
+GateS = sym.sort("DevGate")
+GATE_OF = z3.Function("gate_of_op", OpS, GateS)
+VARIADIC_G = z3.Function("gate_type_is_variadic", GateS, z3.BoolSort())
+
+
+class _GateTag(SObj):
+    """operation.gate: an abstract gate value (two operations may carry EQUAL gates and still differ, e.g. in their tags); only its
+    variadic-ness is observed (isinstance against _VARIADIC_GATE_TYPES)"""
+    __slots__ = ()
 
     def __init__(self, op):
-        self.op = op
+        super().__init__(GATE_OF(op.e), "DevGate")
 
     __hash__ = object.__hash__
 
@@ -189,44 +196,52 @@ def _device(name):
     return SRec(cirq_google.GridDevice, {"_metadata": meta})
 
 
-def _ops_of_arity(k):
+def _ops_of_arities(*ks):
     def mk(name):
-        op = sym.fresh_obj("DevOp", "op")
-        qs = tuple(sym.fresh_obj("DevQid", f"q{i}") for i in range(k))
-        _ST["op"], _ST["qs"] = op, qs
-        return iter([op])
+        _ST["ops"], _ST["qubits"] = [], {}
+        for j, k in enumerate(ks):
+            op = sym.fresh_obj("DevOp", f"op{j}")
+            _ST["ops"].append(op)
+            _ST["qubits"][str(op.e)] = tuple(sym.fresh_obj("DevQid", f"q{j}_{i}") for i in range(k))
+        return iter(list(_ST["ops"]))
     return mk
 
 
-SObj.ATTRS["DevOp"] = {"qubits": lambda o: _ST["qs"], "gate": lambda o: _GateTag(o)}
+SObj.ATTRS["DevOp"] = {"qubits": lambda o: _ST["qubits"][str(o.e)], "gate": lambda o: _GateTag(o)}
 
 
 def _isinstance(interp, x, T):
     import cirq
 
     if isinstance(x, _GateTag):
-        return bool(wrap(VARIADIC(x.op.e)))
+        return bool(wrap(VARIADIC_G(x.e)))
     if isinstance(x, SObj) and x.sortname == "DevQid":
         return getattr(T, "__name__", "") != "Coupler" and (T is cirq.Qid or T is object)
     return NotImplemented
 
 
 def accepted():
-    op, qs = _ST["op"], _ST["qs"]
-    f = z3.And(IN_GATESET(op.e), *[ON_DEVICE(q.e) for q in qs])
-    if len(qs) == 2:
-        f = z3.And(f, z3.Or(VARIADIC(op.e), COUPLED(qs[0].e, qs[1].e), COUPLED(qs[1].e, qs[0].e)))
-    return wrap(f)
+    """every operation of the sequence is in the gateset, on the device and (if a non-variadic pair) on a coupled pair"""
+    fs = []
+    for op in _ST["ops"]:
+        qs = _ST["qubits"][str(op.e)]
+        f = z3.And(IN_GATESET(op.e), *[ON_DEVICE(q.e) for q in qs])
+        if len(qs) == 2:
+            f = z3.And(f, z3.Or(VARIADIC_G(GATE_OF(op.e)), COUPLED(qs[0].e, qs[1].e), COUPLED(qs[1].e, qs[0].e)))
+        fs.append(f)
+    return wrap(z3.And(*fs))
 
 
 accepted._pyvc_native_ok = True
 
 Contract(
     FG + ":GridDevice._validate_operations", "C07",
-    cases=[Case(f"one operation on {k} qubit(s)", {"self": _device, "operations": _ops_of_arity(k)}) for k in (1, 2, 3)],
+    cases=[Case(f"one operation on {k} qubit(s)", {"self": _device, "operations": _ops_of_arities(k)}) for k in (1, 2, 3)]
+          + [Case(f"two operations on {k1} and {k2} qubit(s)", {"self": _device, "operations": _ops_of_arities(k1, k2)}) for k1, k2 in ((1, 1), (1, 2), (2, 1), (2, 2))],
     raises={"ValueError": "not accepted()"},
     env={"accepted": accepted}, hooks={"isinstance": _isinstance},
-    notes="couplers (cirq.Coupler pseudo-qubits) are outside this contract; the circuit-level methods apply this to every operation in order",
+    notes="sequences of one and two operations (the second may carry a gate EQUAL to the first's and differ otherwise, e.g. in tags); couplers (cirq.Coupler "
+          "pseudo-qubits) are outside this contract; the circuit-level methods pass all operations of the circuit in order",
 )
 
 CANARIES = [
@@ -245,3 +260,16 @@ ASSUMPTIONS = ["numpy: a[[i, j]] reads a copy and a[[i, j]] = (u, v) stores u th
                "MappingManager.__init__ establishes the inverse-permutation invariant (stand-in); nothing else writes the arrays (apply_swap is the only writer in the class)"]
 EXPLANATION = ("C07: MappingManager.apply_swap proved to keep the logical/physical arrays mutually inverse and to exchange exactly the two entries for any size; "
                "GridDevice operation acceptance proved equivalent to gateset membership, on-device qubits and coupled pairs; ")
+
+
+def _replay_device(ob, seed):
+    """concrete witness for a failed acceptance obligation: the device stand-in's GridDevice cases (specification-built devices,
+    tag-conditioned gate families, mixed accepted / refused variants of one gate) searched for a circuit the device mis-judges"""
+    from contracts.C07_compile import standin_devices
+
+    r = standin_devices("thorough", seed)
+    hits = [f for f in r.get("_fails", []) if "GridDevice" in str(f.get("failed", "")) + str(f.get("clause", ""))]
+    return hits[0] if hits else None
+
+
+REPLAYERS = {FG + ":GridDevice._validate_operations": _replay_device}
